@@ -323,9 +323,16 @@ impl<F: Write + Seek> MiniAllocator<F> {
             if self.minifat.len()
                 >= num_minifat_sectors * minifat_entries_per_sector
             {
+                // Record the new length in the header before extending the
+                // chain: if the second step fails, a retry comes this way
+                // again and repeats both, whereas a header write that
+                // failed after the chain had grown would never be made up
+                // for.
+                {
+                    let mut header = self.directory.seek_within_header(64)?;
+                    header.write_le_u32(num_minifat_sectors as u32 + 1)?;
+                }
                 self.directory.extend_chain(start, SectorInit::Fat)?;
-                let mut header = self.directory.seek_within_header(64)?;
-                header.write_le_u32(num_minifat_sectors as u32 + 1)?;
             }
         }
         // Add a new mini sector to the end of the mini stream and return it.
